@@ -87,7 +87,22 @@ def _listed(part, line, o):
 
 
 def driver_for(sc):
-    return PARTS[sc.meta["part"]].C18_DRIVER
+    return PARTS[_part(sc)].C18_DRIVER
+
+
+def _part(sc):
+    if "part" not in sc.meta:
+        sc.meta["part"] = _corpus_part(sc)
+    return sc.meta["part"]
+
+
+def _corpus_part(sc):
+    """corpus/C18/<part>__<name>.ops: the part is named by the file"""
+    fn = sc.meta.get("corpus", "")
+    part = fn.split("__", 1)[0]
+    if part not in PARTS:
+        raise core.Infra(f"corpus/C18/{fn}: unknown part '{part}' (file names are <part>__<name>.ops)")
+    return part
 
 
 def generate(rng, tier, count):
@@ -100,7 +115,7 @@ def generate(rng, tier, count):
 
 
 def run_impl(sc):
-    return PARTS[sc.meta["part"]].run_impl(sc)
+    return PARTS[_part(sc)].run_impl(sc)
 
 
 def _hdr(part):
@@ -108,7 +123,7 @@ def _hdr(part):
 
 
 def oracle(sc, obs):
-    part = PARTS[sc.meta["part"]]
+    part = PARTS[_part(sc)]
     bad = list(part.oracle(sc, obs))
     rej = [i for i, o in enumerate(obs) if _listed(sc.meta["part"], sc.lines[i], o)]
     if rej and not sc.meta.get("twin"):
